@@ -147,6 +147,7 @@ pub fn start_thread() {
     unsafe {
         ROUND = 0;
         THREAD += 1;
+        crate::verif_rt::search_stream(THREAD);
     }
 }
 pub fn round() -> usize {
@@ -174,6 +175,7 @@ pub fn assume_consistent() {
         t!(0, 1, 2, 3, 4, 5, 6, 7, 8, 9, 10, 11, 12, 13, 14, 15);
         ROUND = K - 1;
         MODE = 3;
+        crate::verif_rt::search_stream(0);
     }
 }
 
